@@ -21,3 +21,5 @@ import HypnoModel.Drv.All
 import HypnoModel.Gen.Spacing
 import HypnoModel.Lemmas.Spacing
 import HypnoModel.Props.C09
+import HypnoModel.Gen.Metric
+import HypnoModel.Gen.PolSpacing
